@@ -984,7 +984,9 @@ func runCase(d Desc) (vf.Case, error) {
 	term := vf.App("mkCase", b.kind, vf.List(ins), vf.List(cs), b.side())
 	// finding signature: the reader kind plus the one input/observation feature
 	// that explains a violation of this kind (identical for cases failing for
-	// the same reason)
+	// the same reason).  The multi-*/head signatures name defects that were
+	// repaired in /repo (commits d00fa90, b23d5f2): such cases now pass, and the
+	// signature is kept so that a regression is reported under its old name.
 	sig := d.Kind
 	pan, hang := false, false
 	for _, c := range calls {
